@@ -10,6 +10,7 @@ pub mod c06;
 pub mod c07;
 pub mod c08;
 pub mod c09;
+pub mod c10;
 pub mod c11;
 pub mod c12;
 pub mod c14;
@@ -37,6 +38,7 @@ pub fn all() -> Vec<PropMeta> {
         PropMeta { id: "C07", rule: c07::RULE, assumptions: c07::ASSUMPTIONS, subs: c07::subs },
         PropMeta { id: "C08", rule: c08::RULE, assumptions: c08::ASSUMPTIONS, subs: c08::subs },
         PropMeta { id: "C09", rule: c09::RULE, assumptions: c09::ASSUMPTIONS, subs: c09::subs },
+        PropMeta { id: "C10", rule: c10::RULE, assumptions: c10::ASSUMPTIONS, subs: c10::subs },
         PropMeta { id: "C11", rule: c11::RULE, assumptions: c11::ASSUMPTIONS, subs: c11::subs },
         PropMeta { id: "C12", rule: c12::RULE, assumptions: c12::ASSUMPTIONS, subs: c12::subs },
         PropMeta { id: "C14", rule: c14::RULE, assumptions: c14::ASSUMPTIONS, subs: c14::subs },
